@@ -144,6 +144,7 @@ func (m *MonC09) AfterBlock(o *BlockOutcome) {
 			return
 		}
 		if ded.IsPositive() {
+			rep.Sample(map[string]any{"observed": "take-rate deduction", "asset": d, "rate": a.TakeRate.String(), "intervals": n, "total_before": a.TotalTokens.String(), "total_after": pa.TotalTokens.String(), "specified": want.String(), "to_fee_collector": toFc[d].String(), "clock_before": L.Format(time.RFC3339Nano), "clock_after": L2.Format(time.RFC3339Nano)})
 			anyDeducted = true
 			_ = charged
 			rep.Class(fmt.Sprintf("C09.deduct/%s/rate%s/mag%d", gapClass, rateClass(a.TakeRate), magClass(a.TotalTokens)))
